@@ -317,6 +317,7 @@ pub fn property() -> Property {
             Tier::Thorough => 1500.0,
         },
         info: || PropInfo {
+            floors: vec![],
             rule: "one run = a caller among 2..14 scripted peers with partial knowledge (so lookups iterate) and 0..3 real servers; 1..9 calls of 12 kinds over a pool of 2 targets per kind issued within 3.6 s (overlaps on equal targets are the norm; 1/4 of the runs force find_node(x) followed by put to x); faults: loss up to 35%, duplication up to 30%, delays of 0.4..4 s (beyond the timeout), corruption, peers turning silent / garbage-answering / error-answering at seeded instants, a stall of the caller, clock skew up to +-5%. Horizon per run = (A+2)(tau_max+1 s)+5 s after the last issue (A = addresses contacted + peers, tau_max = largest request timeout the caller reported), scaled by the skew, plus stalls. Non-trivial = at least one call issued; distinct = delivery-order hash".into(),
             assumptions: vec!["a stream may yield at most one item per distinct value-bearing reply delivered for its target plus one per local in-flight put".into()],
         },
